@@ -51,6 +51,15 @@ Proof.
   - intros k x Hk. apply memb_In in Hk. rewrite Hk. apply prox_nn_declared.
 Qed.
 
+(* parafac2's built-in initialisations are projected on the declared modes: feasible whatever the raw (signed SVD) factors *)
+Lemma initialize_parafac2_nn_nonneg nn raw : forall m, In m nn -> mnn (nth m (initialize_parafac2_nn Rops nn raw) []).
+Proof.
+  intros m. unfold initialize_parafac2_nn.
+  apply (mapi_from_nth (fun k M => In k nn -> mnn M) (fun k M => if memb k nn then mmap (clip_min Rops (f0 Rops)) M else M) [] ) with (k := 0%nat).
+  - intros; constructor.
+  - intros k x Hk. apply memb_In in Hk. rewrite Hk. eapply mge_mnn; [|apply mmap_clip_ge]. rops; lra.
+Qed.
+
 (* ------------------------------------------------------------------ parafac2 *)
 Section P2.
 Variable nrm : list R -> R.
@@ -76,19 +85,17 @@ Qed.
 Lemma ones_nn n : vnn (repeat (f1 Rops) n).
 Proof. apply Forall_forall. intros x Hx. apply repeat_spec in Hx. subst. rops; lra. Qed.
 
-Lemma line_entry_clipped nn jump k L C : In k nn -> (k = 0 \/ k = 2)%nat -> mnn (line_entry Rops nn jump k L C).
+Lemma line_entry_clipped nn jump k L C : In k nn -> mnn (line_entry Rops nn jump k L C).
 Proof.
-  intros Hin Hk. unfold line_entry. apply memb_In in Hin. rewrite Hin.
-  assert (E : (Nat.eqb k 0 || Nat.eqb k 2) = true) by (destruct Hk; subst; reflexivity). rewrite E. cbn [andb].
+  intros Hin. unfold line_entry. apply memb_In in Hin. rewrite Hin.
   eapply mge_mnn; [|apply mmap_clip_ge]. rops; lra.
 Qed.
 
 Lemma parafac2_iter_inv (D : nat -> Prop) utm utu solve inner istop nn nip line accept nm it st :
   (forall m, D m -> In m nn) ->
-  ((forall i, line i = None) \/ (forall m, D m -> (m = 0 \/ m = 2)%nat)) ->
   cp_inv D st -> cp_inv D (parafac2_iter Rops nrm utm utu solve inner istop nn nip line accept nm it st).
 Proof.
-  intros HD Hls. destruct st as [w Fs]. intros [Hw HF]. cbn [fst snd] in *. unfold parafac2_iter.
+  intros HD. destruct st as [w Fs]. intros [Hw HF]. cbn [fst snd] in *. unfold parafac2_iter.
   set (Fs0 := set_nth 1 (mul_cols Rops (nth 1 Fs []) w) Fs).
   assert (H0 : forall m, D m -> mnn (nth m Fs0 [])).
   { intros m Hm. unfold Fs0. apply nth_set_nth_P; auto. intros ->. apply mul_cols_nn; auto. }
@@ -102,7 +109,6 @@ Proof.
              | Some jump => if accept it (repeat (f1 Rops) (length w), Fs1) then line_step Rops nn jump Fs0 Fs1 else Fs1
              | None => Fs1 end) [])).
   { intros m Hm. destruct (line it) as [jump|] eqn:El; auto. destruct (accept it _); auto.
-    destruct Hls as [Hn|H02]; [rewrite Hn in El; discriminate|].
     unfold line_step.
     apply (line_step_from_nth nn jump (fun k M => D k -> mnn M)) with (k := 0%nat); auto.
     - intros; constructor.
@@ -113,29 +119,16 @@ Proof.
   destruct nm; auto. apply cp_normalize_inv; auto.
 Qed.
 
-(* modes 0 and 2: with or without line search *)
-Theorem parafac2_nonneg_modes02 utm utu solve inner istop nn nip line accept nm stop n w Fs :
-  vnn w -> (forall m, In m nn -> (m = 0 \/ m = 2)%nat -> mnn (nth m Fs [])) ->
-  let out := parafac2 Rops nrm utm utu solve inner istop nn nip line accept nm stop n (w, Fs) in
-  vnn (fst out) /\ forall m, In m nn -> (m = 0 \/ m = 2)%nat -> mnn (nth m (snd out) []).
-Proof.
-  intros Hw HF out.
-  assert (I : cp_inv (fun m => In m nn /\ (m = 0 \/ m = 2)%nat) out).
-  { unfold out, parafac2. apply outer_loop_inv; auto.
-    - intros it s Hs. apply parafac2_iter_inv; auto; [tauto | right; tauto].
-    - split; auto. cbn [snd]. intros m [H1 H2]. auto. }
-  destruct I as [I1 I2]. split; auto.
-Qed.
-(* every declared mode (also the B mode 1) when no line search step is taken *)
-Theorem parafac2_nonneg_no_linesearch utm utu solve inner istop nn nip accept nm stop n w Fs :
+(* every declared mode (the B mode 1 included), with or without line search, any acceptance pattern *)
+Theorem parafac2_nonneg utm utu solve inner istop nn nip line accept nm stop n w Fs :
   vnn w -> (forall m, In m nn -> mnn (nth m Fs [])) ->
-  let out := parafac2 Rops nrm utm utu solve inner istop nn nip (fun _ => None) accept nm stop n (w, Fs) in
+  let out := parafac2 Rops nrm utm utu solve inner istop nn nip line accept nm stop n (w, Fs) in
   vnn (fst out) /\ forall m, In m nn -> mnn (nth m (snd out) []).
 Proof.
   intros Hw HF out. change (cp_inv (fun m => In m nn) out).
   unfold out, parafac2. apply outer_loop_inv; auto.
   - intros it s Hs. apply parafac2_iter_inv; auto.
-  - split; auto.
+  - apply cp_fin_inv; auto. split; auto.
 Qed.
 End P2.
 
@@ -162,22 +155,9 @@ Proof. intros. apply non_negative_tucker_nonneg; auto. apply nrm2_nonneg. Qed.
 From Coq Require Import QArith.
 Definition qneg (x : Q) : Prop := Qle_bool 0 x = false.
 
-(* PARAFAC2, mode 1 declared non-negative, an accepted line-search step: B_ls = B_last + (B - B_last)*jump is not
-   clipped.  Rank 1, all matrices 1x1, start (1,1,1); the HALS update moves B to 0, the jump 3 extrapolates to -2. *)
-Lemma parafac2_linesearch_mode1_witness :
-  exists utm utu solve inner istop line accept,
-    let out := parafac2 Qops (fun _ => 1%Q) utm utu solve inner istop [0; 1; 2]%nat 1 line accept false (fun _ _ => false) 1
-                        ([1%Q], [[[1%Q]]; [[1%Q]]; [[1%Q]]]) in
-    qneg (nth 0 (nth 0 (nth 1 (snd out) []) []) 0%Q).
-Proof.
-  exists (fun _ _ _ mode => if Nat.eqb mode 1 then [[0%Q]] else [[1%Q]]), (fun _ _ _ _ => [[1%Q]]), (fun _ M => M),
-         (fun _ _ _ _ => 1%nat), (fun _ _ _ => false), (fun _ => Some (3%Q)), (fun _ _ => true).
-  vm_compute. reflexivity.
-Qed.
-(* PARAFAC2 started from the SVD initialisation (A = ones, B = identity, C = signed singular vectors; nothing makes it
-   feasible): with a non-positive MTTKRP column A collapses to 0, the Gram diagonal of the other modes is 0, the HALS row
-   update is skipped (`if UtU[k, k]:`) and C keeps its negative entry -- after a full iteration, without line search.
-   (With n_iter_max = 0 the signed C is returned as is.) *)
+(* the hypothesis on a USER start cannot be dropped: a start with a negative entry in a declared mode is returned as is
+   when no iteration runs, and survives a full iteration when the row update is skipped (`if UtU[k, k]:`, zero Gram
+   diagonal because another factor's column was clipped to zero).  (The built-in initialisations are projected.) *)
 Lemma parafac2_signed_init_witness :
   exists utm utu solve inner istop,
     let init := ([1%Q], [[[1%Q]]; [[1%Q]]; [[(-1)%Q]]]) in
